@@ -26,6 +26,7 @@ PROPS = {
     "C11": "vp.harness.c11_xdef",
     "C12": "vp.harness.c12_const",
     "C13": "vp.harness.c13_robust",
+    "C14": "vp.harness.c14_evolve",
     "C17": "vp.harness.c17_errloc",
     "C19": "vp.harness.c19_closure",
 }
